@@ -132,7 +132,7 @@ func runC09(c *Ctx) {
 			r.Fail("size/accounting", key, f.PosOf(hasPt), "result of has() is not bound to a variable")
 			continue
 		}
-		tEdges, fEdges := f.CondEdges(func(e ast.Expr) bool { return objOfIdent(info, e) == hasVar })
+		tEdges, fEdges := f.VarEdges(hasVar)
 		lic := fEdges
 		licName := "not-present"
 		if a.presentEdg {
@@ -335,93 +335,18 @@ func pathExists(f *FuncCFG, from, to Point) bool {
 	return found
 }
 
-// checkStreamStopAndReport: consumer literal records every error in an outer variable, stops,
-// and the outer function returns it.
+// checkStreamStopAndReport: the consumer handed to IterateKeys records every error in a variable
+// of Stream, stops the iteration, and Stream returns it (the rule of C06, see there).
 func checkStreamStopAndReport(r *Reporter, p *Prog, pkg string, fd *ast.FuncDecl) {
 	info := p.Pkg(pkg).TypesInfo
-	key := funcKey(pkg, fd)
-	var lit *ast.FuncLit
-	ast.Inspect(fd.Body, func(n ast.Node) bool {
-		if c, ok := n.(*ast.CallExpr); ok {
-			if se, ok := ast.Unparen(c.Fun).(*ast.SelectorExpr); ok && se.Sel.Name == "IterateKeys" {
-				for _, a := range c.Args {
-					if l, ok := a.(*ast.FuncLit); ok {
-						lit = l
-					}
-				}
-			}
-		}
-		return true
+	checkIterateStopAndReport(r, p, pkg, fd, funcKey(pkg, fd), stopReportOpts{
+		IsIteration: func(c *ast.CallExpr) bool {
+			se, ok := ast.Unparen(c.Fun).(*ast.SelectorExpr)
+			return ok && se.Sel.Name == "IterateKeys"
+		},
+		Skip: func(c *ast.CallExpr) bool { return isErrorConstructor(calleeShort(info, c)) },
+		Min:  3,
 	})
-	if lit == nil {
-		r.Fail("iterate/stop-and-report", key, p.posStr(fd.Pos()), "no consumer literal found")
-		return
-	}
-	lf := newFuncCFG(p, info, lit.Body, key+"$consumer")
-	outer := map[types.Object]bool{}
-	n := 0
-	bad := ""
-	for _, c := range lf.Calls(func(c *ast.CallExpr) bool { _, isErr := lastResultIsError(info, c); return isErr }) {
-		if strings.Contains(exprKey(c.Fun), "Wrap") {
-			continue
-		}
-		n++
-		_, fails := lf.ErrEdges(c)
-		if len(fails) == 0 {
-			bad = p.posStr(c.Pos()) + ": error not tested"
-			continue
-		}
-		for _, fe := range fails {
-			start := Point{fe.From.Succs[fe.Succ], 0}
-			if _, found := lf.reach(start, &searchOpts{AvoidNode: func(nd ast.Node) bool {
-				as, ok := nd.(*ast.AssignStmt)
-				if !ok || len(as.Lhs) != 1 {
-					return false
-				}
-				o := objOfIdent(info, as.Lhs[0])
-				if o != nil && !(o.Pos() >= lit.Pos() && o.Pos() <= lit.End()) && types.Identical(o.Type(), errorType) {
-					outer[o] = true
-					return true
-				}
-				return false
-			}}, func(pt Point, atExit bool) bool { return atExit }); found {
-				bad = p.posStr(c.Pos()) + ": a failure can leave the consumer without recording the error"
-			}
-			if _, found := lf.reach(start, &searchOpts{AvoidNode: func(nd ast.Node) bool {
-				rs, ok := nd.(*ast.ReturnStmt)
-				return ok && len(rs.Results) == 1 && exprKey(rs.Results[0]) == "false"
-			}}, func(pt Point, atExit bool) bool { return atExit }); found {
-				bad = p.posStr(c.Pos()) + ": a failure does not stop the iteration"
-			}
-		}
-	}
-	if n < 3 {
-		bad = fmt.Sprintf("expected at least 3 fallible calls in the consumer, found %d", n)
-	}
-	if bad == "" {
-		okRet := false
-		ast.Inspect(fd.Body, func(nd ast.Node) bool {
-			if _, isLit := nd.(*ast.FuncLit); isLit {
-				return false
-			}
-			if rs, ok := nd.(*ast.ReturnStmt); ok && len(rs.Results) == 1 {
-				if outer[objOfIdent(info, rs.Results[0])] {
-					okRet = true
-				} else if isNil(info, rs.Results[0]) {
-					bad = p.posStr(rs.Pos()) + ": returns nil instead of the recorded error"
-				}
-			}
-			return true
-		})
-		if !okRet && bad == "" {
-			bad = "the recorded error is never returned"
-		}
-	}
-	if bad == "" {
-		r.Pass("iterate/stop-and-report", key, p.posStr(lit.Pos()), fmt.Sprintf("%d fallible calls: recorded, stopped, returned", n))
-	} else {
-		r.Fail("iterate/stop-and-report", key, p.posStr(lit.Pos()), bad)
-	}
 }
 
 // checkAdsConstructor: import-from-root wiring and prefix layout.
@@ -554,6 +479,9 @@ func checkPresencePredicate(r *Reporter, p *Prog, pkg string, info *types.Info, 
 			continue
 		}
 		fkey := funcKey(pkg, fd)
+		// the method with its unexported helpers in place: the decision on the looked-up bytes may
+		// live in a helper the bytes are handed to
+		f := newFuncCFG(p, info, fd.Body, fkey)
 		ast.Inspect(fd.Body, func(nd ast.Node) bool {
 			as, ok := nd.(*ast.AssignStmt)
 			if !ok || len(as.Rhs) != 1 || len(as.Lhs) != 2 {
@@ -570,23 +498,34 @@ func checkPresencePredicate(r *Reporter, p *Prog, pkg string, info *types.Info, 
 			nGets++
 			key := "presence test on the result of tree.Get in " + fkey
 			nilTests, lenTests := 0, []string{}
-			ast.Inspect(fd.Body, func(m ast.Node) bool {
-				be, ok := m.(*ast.BinaryExpr)
-				if !ok {
-					return true
+			seenTest := map[ast.Node]bool{}
+			for _, b := range f.G.Blocks {
+				if !b.Live {
+					continue
 				}
-				for _, side := range [][2]ast.Expr{{be.X, be.Y}, {be.Y, be.X}} {
-					if objOfIdent(info, side[0]) == v && isNil(info, side[1]) && (be.Op == token.EQL || be.Op == token.NEQ) {
-						nilTests++
-					}
-					if c2, ok := ast.Unparen(side[0]).(*ast.CallExpr); ok && exprKey(c2.Fun) == "len" && len(c2.Args) == 1 && objOfIdent(info, c2.Args[0]) == v {
-						if cv, isConst := constInt(info, side[1]); isConst && cv <= 1 {
-							lenTests = append(lenTests, p.posStr(be.Pos())+" "+exprKey(be))
+				for bi, bn := range b.Nodes {
+					pt := Point{b, bi}
+					inspectNoLit(bn, func(m ast.Node) bool {
+						be, ok := m.(*ast.BinaryExpr)
+						if !ok || seenTest[be] {
+							return true
 						}
-					}
+						for _, side := range [][2]ast.Expr{{be.X, be.Y}, {be.Y, be.X}} {
+							if f.IsVar(side[0], pt, v) && isNil(info, side[1]) && (be.Op == token.EQL || be.Op == token.NEQ) {
+								nilTests++
+								seenTest[be] = true
+							}
+							if c2, ok := ast.Unparen(side[0]).(*ast.CallExpr); ok && exprKey(c2.Fun) == "len" && len(c2.Args) == 1 && f.IsVar(c2.Args[0], pt, v) {
+								if cv, isConst := constInt(info, side[1]); isConst && cv <= 1 {
+									lenTests = append(lenTests, p.posStr(be.Pos())+" "+exprKey(be))
+									seenTest[be] = true
+								}
+							}
+						}
+						return true
+					})
 				}
-				return true
-			})
+			}
 			switch {
 			case len(lenTests) > 0:
 				r.Fail("presence/one-predicate", key, p.posStr(cl.Pos()), "presence is decided by the length of the stored value ("+lenTests[0]+") instead of value != nil as in has(): a key holding an empty value is reported absent here but counted, streamed and deletable everywhere else", lenTests...)
